@@ -281,6 +281,9 @@ def run_property(modname, tier, seed, nproc=None):
     if uniq:
         rdir = os.path.join(VERIF, "replays", pid)
         os.makedirs(rdir, exist_ok=True)
+        for old in os.listdir(rdir):
+            if old.endswith(".json"):
+                os.remove(os.path.join(rdir, old))
         shown = 0
         hist = {}
         for v in uniq:
